@@ -55,6 +55,7 @@ const (
 	AElem                  // element of a slice backing array
 	AMem                   // pointee of a pointer to a non-struct type
 	AGlobal
+	AArr // a whole array living in the heap (backing array Arr, N elements of type ET)
 )
 
 type Addr struct {
@@ -68,6 +69,7 @@ type Addr struct {
 	Arr    *Term
 	Index  *Term
 	ET     types.Type // element / pointee type
+	N      int64
 	Glob   *ssa.Global
 }
 
@@ -268,6 +270,8 @@ func addrEq(a, b *Addr) bool {
 		return a.Ref == b.Ref
 	case AGlobal:
 		return a.Glob == b.Glob
+	case AArr:
+		return a.Arr == b.Arr
 	}
 	return false
 }
